@@ -15,7 +15,7 @@ Theorem C15_tree_archive_materialised :
     forall pmD mtD ks, get fs0 (comps_of dst) = Some (Dir pmD mtD []) ->
       NoDup (map fst ks) -> wf_kids ks -> links_ok_kids [] ks ->
       unpack true allow fs0 dst (kids_entries [] ks)
-      = (put fs0 (comps_of dst) (Dir pmD (match ks with [] => mtD | _ => None end) (map rp ks)), ROk).
+      = (put fs0 (comps_of dst) (Dir pmD (match rpk ks with [] => mtD | _ => None end) (rpk ks)), ROk).
 Proof. exact unpack_tree_entries. Qed.
 Print Assumptions C15_tree_archive_materialised.
 
@@ -48,6 +48,33 @@ Theorem C15_last_of_many_file_entries :
            (put X (pre ++ [x]) (File (e_body e_last) (e_mode e_last) (Some (sec_to_ns (e_mtime e_last))))), dirs, None).
 Proof. exact last_of_many_file_entries. Qed.
 Print Assumptions C15_last_of_many_file_entries.
+
+(* "Children before their parent directory" and "the same path several times", for directories:
+   a directory entry for a path that already is a directory - made implicitly for a child that
+   came first, or by an earlier entry - changes nothing at that moment and queues its permissions
+   and time; of the queued restores of one path, applied after everything is in place and in the
+   order read, the last one decides, and the directory's contents are untouched. *)
+Theorem C15_directory_entry_for_existing_directory :
+  forall allow fs0 dst, dst_ok dst -> is_dir fs0 = true -> rdir fs0 (comps_of dst) ->
+  forall X pre x pm0 mt0 kids is_root dirs e,
+    is_dir X = true -> rdir X pre -> forallb seg_ok (pre ++ [x]) = true ->
+    get X (pre ++ [x]) = Some (Dir pm0 mt0 kids) ->
+    e_name e = entry_name (pre ++ [x]) true -> e_type e = ty_dir ->
+    unpack_entry is_root allow (at_dst fs0 (comps_of dst) X) dst dirs e
+    = (at_dst fs0 (comps_of dst) X, dirs ++ [(comps_of dst ++ pre ++ [x], e)], None).
+Proof. exact dir_entry_again. Qed.
+Print Assumptions C15_directory_entry_for_existing_directory.
+
+Theorem C15_last_directory_entry_wins :
+  forall fs0 dst, dst_ok dst -> is_dir fs0 = true -> rdir fs0 (comps_of dst) ->
+  forall pre x, forallb seg_ok (pre ++ [x]) = true ->
+  forall es X pm0 mt0 kids e_last more,
+    is_dir X = true -> rdir X pre -> get X (pre ++ [x]) = Some (Dir pm0 mt0 kids) ->
+    restore_dirs (at_dst fs0 (comps_of dst) X) (map (fun e => (comps_of dst ++ pre ++ [x], e)) (es ++ [e_last]) ++ more)
+    = restore_dirs (at_dst fs0 (comps_of dst)
+        (put X (pre ++ [x]) (Dir (e_mode e_last) (Some (sec_to_ns (e_mtime e_last))) kids))) more.
+Proof. exact last_dir_entry_wins. Qed.
+Print Assumptions C15_last_directory_entry_wins.
 
 (* An entry of a type that cannot be represented (hard link, device, fifo, ...)
    makes Unpack fail with an illegal-slug result; it is never dropped. *)
